@@ -84,6 +84,9 @@ def history(r, M, thorough):
         i, j = r.below(M), r.below(M)
         close.append(r.choice([[i, j, j, i], [i, j, i, j], list(r.choice(pool))]))
     ops.append("tpc prepareall %d %s" % (len(close), " ".join("%d %d %d %d" % tuple(q) for q in close)))
+    if r.chance(1, 2):      # the same bulk request again (must be harmless), sometimes reordered / with an alias of an element
+        again = list(reversed(close)) if r.chance(1, 2) else [close[0], [close[1][1], close[1][0], close[1][2], close[1][3]]]
+        ops.append("tpc prepareall %d %s" % (len(again), " ".join("%d %d %d %d" % tuple(q) for q in again)))
     ops.append("tpc computeall %d" % r.below(2))
     for q in close:
         for v in ([q[0], q[1], q[2], q[3]], [q[1], q[0], q[2], q[3]], [q[0], q[1], q[3], q[2]], [q[1], q[0], q[3], q[2]]):
